@@ -253,6 +253,8 @@ class Algebra:
                     return cands[0]
         if k == "CallExpr" and (n.callee or "").split("::")[-1] in ("abs", "fabs", "fabsf", "labs") and len(n.c) == 1 and self.abs_sign is not None:
             return self.abs_sign * self.expr(n.c[0])
+        if k == "CallExpr" and (n.callee or "").split("::")[-1] in ("abs", "fabs", "fabsf", "labs") and len(n.c) == 1 and getattr(self, "abs_exact", False):
+            return sympy.Abs(self.expr(n.c[0]))
         if k == "CallExpr" and (n.callee or "").split("::")[-1] == "square" and len(n.c) == 1:
             return self.expr(n.c[0]) ** 2
         if k == "CallExpr" and (n.callee or "").split("::")[-1] in ("cosh", "coshf") and len(n.c) == 1:
